@@ -14,10 +14,11 @@ def run(tier, replay=None):
     mod = os.path.join(REPO, "fc")
     hp = [os.path.join(VERIF, "harness/fc"), API_DIR]
     N = 5 if tier == "quick" else 7
-    env = {"VERIF_N": str(N)}
+    env = {"VERIF_N": str(N), "VERIF_SYMBYTES": "1" if tier == "quick" else "2", "VERIF_BODYNAMES": "4" if tier == "quick" else "6"}
     ck.bounds = {"scanner_buffer_bytes": N, "scanner_instruction_budget": 200000,
                  "driver": "0..2 arguments x 7 file kinds x unwritable destination",
-                 "damage": "4 templates: truncation at every offset; deletion/duplication/swap of every token; indentation of every line set to 0..8; 864 bodies built from names in scope",
+                 "symbolic_bytes_in_program": "%s arbitrary symbolic byte(s) at 4 places of a valid program (function body, after an operator, field type, top level)" % ("1" if tier == "quick" else "2"),
+                 "damage": "4 templates: truncation at every offset; deletion/duplication/swap of every token; indentation of every line set to 0..8; 256 (quick) / 864 (thorough) bodies built from names in scope",
                  "whole_program_budget": "2e7 instructions, call depth 30000"}
     ck.assumptions = ["a path that exhausts the instruction budget or the call depth is a candidate hang / stack exhaustion; it is reported only if the real binary does not terminate within 20 s or dies of a Go runtime fatal error",
                       "a Go panic exit (status 2 with the panic message) counts as 'non-zero exit after printing a diagnostic'",
@@ -31,7 +32,7 @@ def run(tier, replay=None):
     ck.add_run(res)
     ck.handle_violations(res, rp, env=env, timeout=20, per_key=2, accept=accept)
     # group 2 + 3: driver discipline, damaged programs
-    res = run_symgo(mod, hp, "main", "^Harness_C16_(Driver|Truncate|TokenDamage|Indent|Bodies)$", steps=20000000, depth=30000, env=env,
+    res = run_symgo(mod, hp, "main", "^Harness_C16_(Driver|Truncate|TokenDamage|Indent|Bodies|SymbolicBytes)$", steps=20000000, depth=30000, env=env,
                     maxpaths=3000000, timeout=600, extra=["-bound-is-violation"])
     ck.add_run(res)
     ck.handle_violations(res, rp, env=env, timeout=40, per_key=2, accept=accept)
